@@ -57,22 +57,45 @@ def data_payload(max_len=24):
     return st.one_of(st.binary(min_size=0, max_size=max_len), st.sampled_from([b"", b"\0", b"hello", b"\xff\x00\x80"]))
 
 
-def group_values(g, max_entries, inflate, depth):
+def big_extras(L, bl_member):
+    """inflation amounts that put the wire blockLength near 2^16 / the type maximum (where the type allows)"""
+    top = 2 ** (8 * bl_member.size) - 1
+    out = []
+    for target in (65528, 65531, 65535, 65536, 65537, 70000):
+        e = target - L.block_length
+        if e > 0 and target <= top:
+            out.append(e)
+    return out
+
+
+def group_values(g, max_entries, inflate, depth, model=None):
+    flat = not g.groups and not g.data
+    big = []
+    if inflate and model is not None and flat:
+        big = big_extras(g, model.member(g.dimension, "blockLength"))
+    if big:
+        # a flat group with huge entries: at most 2 entries
+        def build(extra):
+            cap = 2 if extra > 1000 else (max_entries if depth < 2 else min(2, max_entries))
+            return st.integers(0, cap).flatmap(lambda k: st.fixed_dictionaries({
+                "entries": st.lists(level_values(g, max_entries, inflate, depth + 1, model), min_size=k, max_size=k), "extra": st.just(extra)}))
+        return st.sampled_from([0, 0, 1, 2, 5, 8] * 3 + big).flatmap(build)
     n = st.integers(0, max_entries if depth < 2 else min(2, max_entries))
-    d = {"entries": n.flatmap(lambda k: st.lists(level_values(g, max_entries, inflate, depth + 1), min_size=k, max_size=k))}
+    d = {"entries": n.flatmap(lambda k: st.lists(level_values(g, max_entries, inflate, depth + 1, model), min_size=k, max_size=k))}
     if inflate:
         d["extra"] = st.sampled_from([0, 0, 1, 2, 5, 8])
     return st.fixed_dictionaries(d)
 
 
-def level_values(L, max_entries=3, inflate=False, depth=0):
+def level_values(L, max_entries=3, inflate=False, depth=0, model=None):
     d = {
         "fields": st.fixed_dictionaries({m.name: member_value(m) for m in L.fields if not m.is_const}),
-        "groups": st.fixed_dictionaries({g.name: group_values(g, max_entries, inflate, depth) for g in L.groups}),
+        "groups": st.fixed_dictionaries({g.name: group_values(g, max_entries, inflate, depth, model) for g in L.groups}),
         "data": st.fixed_dictionaries({x.name: data_payload() for x in L.data}),
     }
     if inflate and depth == 0:
-        d["extra"] = st.sampled_from([0, 1, 3, 8])
+        big = big_extras(L, model.member(model.header, "blockLength")) if model is not None else []
+        d["extra"] = st.sampled_from([0, 1, 3, 8] * 4 + big)
     return st.fixed_dictionaries(d)
 
 
